@@ -74,7 +74,7 @@ def digest(*objs):
 ND_PRESENTATIONS = ["strided", "negstride", "rowstrided", "fortran", "readonly"]
 # ("f32" exists below but is not a default: float32 input is legitimately processed
 # in float32 arithmetic by several functions, so results differ at the 1e-7 level)
-OTHER_PRESENTATIONS = ["list", "pandas", "int"]
+OTHER_PRESENTATIONS = ["list", "pandas", "pandas-idx", "int"]
 
 
 def present(a, kind):
@@ -115,6 +115,13 @@ def present(a, kind):
         if a.ndim == 1:
             return pd.Series(a.copy())
         return pd.DataFrame(a.copy()) if a.ndim == 2 else None
+    if kind == "pandas-idx":
+        # every argument gets the same non-default index (positions and labels differ)
+        import pandas as pd
+        idx = pd.Index(1000 + np.arange(a.shape[0])[::-1])
+        if a.ndim == 1:
+            return pd.Series(a.copy(), index=idx)
+        return pd.DataFrame(a.copy(), index=idx) if a.ndim == 2 else None
     if kind == "f32":
         if a.dtype != np.float64:
             return None
@@ -128,6 +135,16 @@ def present(a, kind):
             return None
         return a.astype(np.int64)
     raise ValueError(kind)
+
+
+def scalar_forms(v, k=0):
+    """the same number as another scalar type a caller may hold (numpy scalars come out
+    of every array reduction; 0-d arrays out of np.asarray / xarray)"""
+    if isinstance(v, (bool, np.bool_)):
+        return [np.bool_(v), bool(v)][k % 2]
+    if isinstance(v, (int, np.integer)):
+        return [np.int64(v), np.int32(v), np.array(v, dtype=np.int64), int(v)][k % 4]
+    return [np.float64(v), np.array(float(v)), float(v)][k % 3]
 
 
 def same_result(r1, r2, rtol=0.0, atol=0.0):
